@@ -16,8 +16,12 @@ def load():
         return json.load(fh)
 
 
-def copy_repo(dst):
+def copy_repo(dst, full=False):
     src = repo_root()
+    if full:  # the MIR tier compiles the crate: the whole workspace (manifests, lock file) is needed
+        os.rmdir(dst)
+        shutil.copytree(src, dst, ignore=shutil.ignore_patterns("target", ".git"))
+        return
     for sub in ("o2o-impl/src", "o2o-macros/src", "src"):
         shutil.copytree(os.path.join(src, sub), os.path.join(dst, sub))
     for f in ("README.md", "Cargo.toml", "o2o-impl/Cargo.toml", "o2o-macros/Cargo.toml"):
@@ -34,7 +38,8 @@ def run(only=None, verbose=True):
             continue
         tmp = tempfile.mkdtemp(prefix="o2o-selftest-")
         try:
-            copy_repo(tmp)
+            tier = m.get("tier", "quick")
+            copy_repo(tmp, full=(tier == "thorough"))
             edits = m.get("edits") or [{"file": m["file"], "old": m["old"], "new": m["new"]}]
             stale = False
             for e in edits:
@@ -48,10 +53,13 @@ def run(only=None, verbose=True):
             if stale:
                 continue
             env = dict(os.environ, O2O_REPO=tmp)
-            r = subprocess.run([os.path.join(VERIF, "check"), m["prop"]], capture_output=True, text=True, env=env)
+            r = subprocess.run([os.path.join(VERIF, "check"), m["prop"], "--tier", tier], capture_output=True, text=True, env=env)
             keys = re.findall(r"rule=(\S+) key=(.*?) at ", r.stdout)
+            want_exit = m.get("expect_exit", 1)
+            if want_exit == 2:  # the rule must answer INCONCLUSIVE (an unanalysed construct), naming the instance
+                keys = re.findall(r"^INCONCLUSIVE property=\S+ rule=(\S+) reason=(.*)$", r.stdout, re.M)
             hit = [k for k in keys if re.search(m["expect"], f"{k[0]} {k[1]}")]
-            if r.returncode == 1 and hit:
+            if r.returncode == want_exit and hit:
                 ok += 1
                 if verbose:
                     print(f"selftest {m['id']}: fired ({hit[0][0]} {hit[0][1][:70]})")
